@@ -986,7 +986,7 @@ func (vc *FnVC) doInvoke(c *ssa.CallCommon, st *State) []Val {
 	var notAny []string
 	for _, cd := range cands {
 		cd := cd
-		tag := vc.prog.typeTag(cd.typ)
+		tag := vc.enc.typeTag(cd.typ)
 		g := eq("(if-tag "+recv.S+")", fmt.Sprint(tag))
 		notAny = append(notAny, not(g))
 		cases = append(cases, caseT{g, func(s *State) []Val {
